@@ -203,7 +203,7 @@ func record(pass string, t target, st *stream, rd *scriptReader, v *verdict) {
 	}
 	vios[v.clause+"|"+key] = &vio{Clause: v.clause, Key: key, Rank: rank, Count: cnt,
 		Detail: fmt.Sprintf("%s [pass=%s, stream %q of %d bytes / %d blocks, %s]", v.detail, pass, st.name, len(st.data), st.blocks(), rd.describe()),
-		Replay: map[string]any{"pass": pass, "target": t.String(), "stream": st.name, "block_sizes_first40": sizes, "stream_bytes": len(st.data), "chunking": rd.describe()}}
+		Replay: replayDoc(pass, t, st, rd, sizes)}
 }
 
 // ---------------------------------------------------------------------------------------------
@@ -241,9 +241,10 @@ func allPartitions(pass string, t target, streams []*stream, deadline time.Time)
 
 // cutSets runs every placement of <= maxCuts short reads at the given positions (each short read
 // plain or followed by a 0-byte read when withZero), buffer-filling reads elsewhere.
+// zeroInPairs: the 0-byte-read variant is also combined in pairs (else only for single short reads).
 // near > 0 restricts the second/third cut to the next `near` positions after the previous one
 // unless the first cut is among the first `head` positions.
-func cutSets(pass string, t target, st *stream, pos []int, maxCuts int, withZero bool, near, head int, deadline time.Time) (runs int64, complete bool) {
+func cutSets(pass string, t target, st *stream, pos []int, maxCuts int, withZero, zeroInPairs bool, near, head int, deadline time.Time) (runs int64, complete bool) {
 	var total int64
 	kinds := 1
 	if withZero {
@@ -275,7 +276,7 @@ func cutSets(pass string, t target, st *stream, pos []int, maxCuts int, withZero
 			rd.ncuts = 1
 			rd.cuts[0], rd.zero[0] = pos[i], k1 == 1
 			run()
-			if maxCuts < 2 {
+			if maxCuts < 2 || (k1 == 1 && !zeroInPairs) {
 				continue
 			}
 			hi := len(pos)
@@ -284,6 +285,9 @@ func cutSets(pass string, t target, st *stream, pos []int, maxCuts int, withZero
 			}
 			for j := int(i) + 1; j < hi; j++ {
 				for k2 := 0; k2 < kinds; k2++ {
+					if k2 == 1 && !zeroInPairs {
+						continue
+					}
 					rd.ncuts = 2
 					rd.cuts[1], rd.zero[1] = pos[j], k2 == 1
 					run()
@@ -361,6 +365,11 @@ func rep(f blockForm, n int) []blockForm {
 
 func main() {
 	max := fwface.VerifC11MaxPacketSize()
+	for i, a := range os.Args {
+		if a == "--replay" && i+1 < len(os.Args) {
+			os.Exit(replayFile(os.Args[i+1], max))
+		}
+	}
 	if os.Getenv("VERIF_C11_CHILD") == "real" {
 		if max != realMax {
 			report.Fatal("child build: MaxNDNPacketSize is %d, expected %d", max, realMax)
@@ -373,8 +382,13 @@ func main() {
 		report.Fatal("scaled build: MaxNDNPacketSize is %d, expected %d (xform -const did not apply)", max, scaledMax)
 	}
 	r := report.New("C11", "exploration")
+	// build the real-constant binary first (the build directory is only needed up to here)
+	bin, err := buildChild()
+	if err != nil {
+		report.Fatal("real-constant pass: %v", err)
+	}
 	scaled := scaledPass(r.Thorough())
-	real, err := runChild()
+	real, err := runChild(bin)
 	if err != nil {
 		report.Fatal("real-constant pass: %v", err)
 	}
@@ -408,21 +422,21 @@ func writeChild(st *passStats) {
 	}
 }
 
-// runChild builds this same program against the overlay WITHOUT the rewritten (scaled) files and runs it.
-func runChild() (*passStats, error) {
+// buildChild builds this same program against the overlay WITHOUT the rewritten (scaled) files.
+func buildChild() (string, error) {
 	bdir := os.Getenv("VERIF_BUILD_DIR")
 	ovPath := os.Getenv("VERIF_OVERLAY")
 	root := report.Root()
 	if bdir == "" || ovPath == "" {
-		return nil, fmt.Errorf("VERIF_BUILD_DIR / VERIF_OVERLAY not set (run through ./check)")
+		return "", fmt.Errorf("VERIF_BUILD_DIR / VERIF_OVERLAY not set (run through ./check)")
 	}
 	raw, err := os.ReadFile(ovPath)
 	if err != nil {
-		return nil, err
+		return "", err
 	}
 	var ov struct{ Replace map[string]string }
 	if err := json.Unmarshal(raw, &ov); err != nil {
-		return nil, err
+		return "", err
 	}
 	dropped := 0
 	for src, dst := range ov.Replace {
@@ -432,12 +446,12 @@ func runChild() (*passStats, error) {
 		}
 	}
 	if dropped == 0 {
-		return nil, fmt.Errorf("no rewritten file found in the overlay: where did the scaled constant come from?")
+		return "", fmt.Errorf("no rewritten file found in the overlay: where did the scaled constant come from?")
 	}
 	b, _ := json.Marshal(ov)
 	ov2 := filepath.Join(bdir, "ov", "overlay-real.json")
 	if err := os.WriteFile(ov2, b, 0o644); err != nil {
-		return nil, err
+		return "", err
 	}
 	bin := filepath.Join(bdir, "harness-real")
 	args := []string{"build"}
@@ -448,17 +462,23 @@ func runChild() (*passStats, error) {
 	cmd := exec.Command("go", args...)
 	cmd.Dir = root
 	if out, err := cmd.CombinedOutput(); err != nil {
-		return nil, fmt.Errorf("building the real-constant binary: %v\n%s", err, out)
+		return "", fmt.Errorf("building the real-constant binary: %v\n%s", err, out)
 	}
+	return bin, nil
+}
+
+// runChild runs the real-constant binary and merges its results.
+func runChild(bin string) (*passStats, error) {
+	bdir := os.Getenv("VERIF_BUILD_DIR")
 	outFile := filepath.Join(bdir, "child-real.json")
 	os.Remove(outFile)
-	cmd = exec.Command(bin)
+	cmd := exec.Command(bin)
 	cmd.Env = append(os.Environ(), "VERIF_C11_CHILD=real", "VERIF_C11_CHILD_OUT="+outFile)
 	cmd.Stdout, cmd.Stderr = os.Stdout, os.Stderr
 	if err := cmd.Run(); err != nil {
 		return nil, fmt.Errorf("running the real-constant binary: %v", err)
 	}
-	raw, err = os.ReadFile(outFile)
+	raw, err := os.ReadFile(outFile)
 	if err != nil {
 		return nil, err
 	}
